@@ -156,6 +156,7 @@ structure JobOk (s : St) (j : Nat) (b : Job) : Prop where
   konly : compactOnly b.pc = true → b.kind = .compact
   notCloned : b.pc ≠ .cCloned
   notCreatedU : b.pc ≠ .createdU
+  notLiveL : b.pc ≠ .doLiveL
   noOut : preAlloc b.pc = true → b.out = none
   ownIdx : (b.pc = .oDecd ∨ b.pc = .oRemoved) → b.snap < s.nSnap
   pend : outPending b.pc = true → ∀ f ∈ outNo b, f ∈ s.pending
